@@ -74,8 +74,11 @@ def aggregate(
         )
         agg_slices.append(agg_slice)
 
+    # start the sum from an empty Triangle so that an empty input yields an empty Triangle
+    # (a bare sum([]) is the int 0)
+    agg_cells = sum(agg_slices, Triangle([]))
     aggregate_triangle = (
-        to_incremental(sum(agg_slices)) if triangle.is_incremental else sum(agg_slices)
+        to_incremental(agg_cells) if triangle.is_incremental else agg_cells
     )
 
     return aggregate_triangle
